@@ -46,16 +46,27 @@ def gen_dir(rng, depth, max_depth, counter, force_index=False):
     return d
 
 
+ACCENT = False
+
+
 def gen_page(rng, counter, titled=True):
     counter[0] += 1
     n = counter[0]
-    return {"title": "Title %d" % n if titled else None, "n": n,
+    title = "Title %d" % n
+    if ACCENT and rng.random() < 0.6:
+        title = "Titre \u00e9t\u00e9 %d" % n   # non-ASCII text for worlds with a non-UTF-8 `encoding`
+    return {"title": title if titled else None, "n": n,
             "author": "auth%d" % n if rng.random() < 0.3 else None, "torn": None, "links": []}
 
 
-def gen_tree(rng, max_depth=3):
+def gen_tree(rng, max_depth=3, accent=False):
+    global ACCENT
     counter = [0]
-    top = gen_dir(rng, 0, max_depth, counter, force_index=rng.random() < 0.93)
+    ACCENT = accent
+    try:
+        top = gen_dir(rng, 0, max_depth, counter, force_index=rng.random() < 0.93)
+    finally:
+        ACCENT = False
     return top
 
 
